@@ -60,6 +60,9 @@ def model(met):
 
 def values(field, n, salt):
     # distinct, self-identifying entries
+    if field == "wind_dir" and salt % 2 == 1:
+        # directions outside [0, 360): unwrapped series, -180..180 conventions (a step hands out the entry as it is)
+        return [[370.0, -90.0, 585.0, 359.5, -0.5][i % 5] + 0.001 * salt + 0.0001 * i for i in range(n)]
     if field == "wind_speed" and salt % 2 == 0:
         # a series with light-wind and calm records among ordinary ones (every record is its own step, whatever its speed)
         return [[3.2, 0.4, 0.45, 0.0, 2.1][i % 5] + 0.001 * salt + 0.0001 * i for i in range(n)]
